@@ -268,6 +268,10 @@ class JobServerSemaphore:
         try:
             while self.__waitersCnt:
                 self.__tokens.append(os.read(self.__fds[0], 1))
+                # The slot is accounted when it is handed to the waiter. It
+                # will resume later and other acquire()/release() calls in
+                # between must see the correct number.
+                self.__acquired += 1
                 self.__waitersCnt -= 1
                 self.__sem.release()
         except BlockingIOError:
@@ -288,7 +292,8 @@ class JobServerSemaphore:
                     JobServerSemaphore.jobavailableCallback, self)
             self.__waitersCnt += 1
             await self.__sem.acquire()
-            pass
+            # Already accounted by whoever handed us the slot.
+            return
         self.__acquired += 1
 
     async def __aenter__(self):
@@ -299,6 +304,8 @@ class JobServerSemaphore:
         if self.__acquired == 0:
             raise ValueError ("BoundedSemaphore released too many times")
         if self.__waitersCnt != 0:
+           # Hand over our slot directly to a waiter. The number of acquired
+           # slots does not change.
            self.__waitersCnt -= 1;
            self.__sem.release()
            if self.__waitersCnt == 0:
@@ -306,7 +313,7 @@ class JobServerSemaphore:
         else:
             if not self.__recursive or self.__acquired > 1:
                 os.write(self.__fds[1], self.__tokens.pop())
-        self.__acquired -= 1
+            self.__acquired -= 1
 
     async def __aexit__(self, exc_type, exc, tb):
         self.release()
